@@ -260,7 +260,10 @@ def reference(d: dict[str, Any]) -> dict[str, Any]:
             "method_type": "unary" if unary else "stream",
             "has_return": bool(unary and r is not None),
             "params": _fields(m["params"]),
-            "result": [] if r is None else [["result", r["t"], bool(r["opt"])]],
+            # a dataclass result travels as a binary column that the framework declares nullable whether or
+            # not the annotation is Optional (WIRE_PROTOCOL section 4 fixes the type, not the flag), so
+            # "-> Pt" and "-> Pt | None" are the same wire contract and must hash alike
+            "result": [] if r is None else [["result", r["t"], True if r["t"] == "point" else bool(r["opt"])]],
             "has_header": h is not None,
             "header": None if h is None else _fields(h["fields"]),
             "is_exchange": None if unary or m["kind"] == "raw" else m["kind"] == "exchange",
